@@ -11,7 +11,7 @@ from . import common
 NPLANS = {"quick": 400, "thorough": 4000}
 RULE = (
     "plan i = H(seed,'C05',i): 1-8 valid corpus rows with 0-3 poison rows (unparsable SMILES, no '>>', 'A>B>C', "
-    "two '>>', empty side, empty string, missing value) at drawn positions, in 20% of plans a whole batch of 2-3 poison rows aligned to the batch size (also as last batch / before a one-row remainder); batch size in {None,1..n+1}; source in "
+    "two '>>', empty side, empty string, missing value) at drawn positions, in 20% of plans a whole batch of 2-3 poison rows aligned to the batch size (also as last batch / before a one-row remainder); batch size in {None,1..n+1}, in 25% of non-CLI plans given through both routes (constructor value overridden by rebalance(batch_size=)); source in "
     "{list, dict, csv, json, cli with pass-through columns}; swarm n_jobs/schedule. Non-trivial: >=1 poison row and "
     ">=1 valid row in the same run; distinct by (rows, batch size, source)."
 )
@@ -101,6 +101,10 @@ def gen_plan(base_seed, i, tier):
     cfg["batch_size"] = rng.choice([None, 1, 2, 3, len(rows), len(rows) + 1, rng.randint(1, len(rows) + 1)])
     if aligned and rng.random() < 0.75:
         cfg["batch_size"] = aligned
+    if source != "cli" and rng.random() < 0.25:
+        # batch size through both routes: constructor value (any, also None) overridden by rebalance(..., batch_size=)
+        cfg["call_batch_size"] = rng.choice([1, 2, 3, max(1, len(rows) - 1), len(rows), len(rows) + 1])
+        cfg["batch_size"] = rng.choice([None, 1, 2, len(rows), len(rows) + 1, 50])
     if id_col:
         cfg["id_col"] = id_col
     return {
@@ -129,7 +133,7 @@ def execute(plan):
     rows = res["rows"]
     vs = []
     kinds = ",".join(plan.get("poison_kinds") or []) or "none"
-    where = "source=%s batch_size=%s" % (source, plan["config"].get("batch_size"))
+    where = "source=%s batch_size=%s%s" % (source, plan["config"].get("batch_size"), "" if plan["config"].get("call_batch_size") is None else " (constructor) overridden per call by %s" % plan["config"]["call_batch_size"])
     inputs = [_rx(it) for it in items]
     nvalid = sum(1 for s in inputs if oracles.is_valid_row(s))
     if rows is None:
@@ -164,7 +168,7 @@ def execute(plan):
                         break
     out["violations"] = vs
     if plan.get("poison_kinds") and nvalid >= 1:
-        out["nontrivial"] = "%016x" % H(inputs, plan["config"].get("batch_size"), source)
+        out["nontrivial"] = "%016x" % H(inputs, plan["config"].get("batch_size"), plan["config"].get("call_batch_size"), source)
     out["sample"] = {"inputs": inputs, "source": source, "batch_size": plan["config"].get("batch_size"), "n_jobs": plan["config"].get("n_jobs"), "rows_returned": None if rows is None else len(rows)}
     return out
 
@@ -187,7 +191,7 @@ def shrink(plan):
         p = common.clone(plan)
         p["source"] = "dict"
         yield p
-    for k, v in (("batch_size", None), ("n_jobs", 1)):
+    for k, v in (("call_batch_size", None), ("batch_size", None), ("n_jobs", 1)):
         if plan["config"].get(k) != v:
             p = common.clone(plan)
             p["config"][k] = v
